@@ -10,7 +10,7 @@
    Both return None when a guard of the Python fails (no rewrite).
 
    A value feeding the setup that is the result of an scf.for / scf.if makes the dependency closure fail:
-   get_scoped_setup_inputs treats ops with regions as immovable (/repo fix add6c27; before the fix the Python
+   get_scoped_setup_inputs treats ops with regions as immovable (/repo fix 09d2c36; before the fix the Python
    asked xDSL whether the whole region op is side-effect free and moved/cloned it without following the values
    its regions capture). *)
 From Snax Require Import Base.Prelude Model.AccIR Model.AccSem.
@@ -296,7 +296,7 @@ Fixpoint set_nth {A} (i : nat) (x : A) (l : list A) : list A :=
 
 (* any(isinstance(inner_op, LaunchOp) for prev_op in previous_ops_of(op) for inner_op in prev_op.walk()):
    a launch (of any accelerator) in front of the setup, directly in the block or nested in a region
-   (repaired guard, /repo fix 86c56b5; before the fix only direct launches were seen) *)
+   (repaired guard, /repo fix 9047e02; before the fix only direct launches were seen) *)
 Fixpoint stmt_any_launch (s : stmt) : bool :=
   let blk := fix blk (b : list stmt) : bool :=
     match b with [] => false | x :: b' => stmt_any_launch x || blk b' end in
